@@ -8,6 +8,8 @@ Streams
             INSTALLED in a rig handler and driven with the matching line/call events (3 hits each, scripted clock):
             snapshot pushed / log emitted / metric call / span opened are observed per tracepoint id and per place;
   register  the same tracepoints registered in code (TracepointConfigService.add_custom) and driven the same way.
+  scale     the installed-and-driven phase with 40-80 filler tracepoints (service and registered) around same-line pairs
+            service+registered / registered+registered: per tracepoint effects as in `register`;
   regodd    registrations OUTSIDE the text-valued domain of the theorems (fire_count None / a list, fire_period inf,
             span a list, stage None, the caller's watches list mutated afterwards): labelled, known-finding candidates
             C11/register-non-text-limit and C11/register-aliases-watches, judged by the statement, not modelled;
@@ -1476,6 +1478,53 @@ def gen_argint(rng):
             'default': rng.choice([1, 0, -1, 1000])}
 
 
+def gen_scale(rng):
+    """only at scale: 40-80 filler tracepoints on other lines (from the service and registered in code) around same-line
+    pairs service+registered and registered+registered; every tracepoint must still act on its own"""
+    n_fill = rng.randint(40, 80)
+    tps, conds, service = [], [], []
+
+    def add(path, line, args, from_service, watches=(), metrics=()):
+        i = len(tps)
+        tps.append({'id': 'tp%d' % i, 'path': path, 'line': line, 'args': dict(args), 'watches': list(watches),
+                    'metrics': [dict(m, name='m_%d_%d' % (i, j)) for j, m in enumerate(metrics)]})
+        conds.append(None)
+        if from_service:
+            service.append(i)
+        return i
+    unlimited = {'fire_count': '-1', 'fire_period': '0'}
+    for k in range(n_fill):
+        args = dict(unlimited) if rng.random() < 0.5 else {}
+        if rng.random() < 0.4:
+            args.update(snapshot='no_collect', log_msg='filler')
+        add(rng.choice(['filler.py', 'host.py', 'other.py']), 100 + k, args, rng.random() < 0.7)
+    pairs = []
+    # service + registered on one line (both orders of arrival are the same here: service first, then registrations)
+    for line, kinds in ((7, ('service', 'code')), (12, ('code', 'code')), (40, ('service', 'code', 'code'))):
+        if line != 7 and rng.random() < 0.3:
+            continue
+        for kd in kinds:
+            args = dict(rng.choice([unlimited, {}, {'fire_count': '2', 'fire_period': '0'}]))
+            r = rng.random()
+            if r < 0.3:
+                args.update(snapshot='no_collect', log_msg='pair {x}')
+            elif r < 0.5:
+                args['span'] = 'line'
+            ms = [gen_metric(rng, 'm')] if rng.random() < 0.3 else []
+            for m in ms:
+                m['type'] %= 4
+            pairs.append(add('host.py', line, args, kd == 'service', ['x'] if rng.random() < 0.3 else [], ms))
+    case = finish_case(rng, 'register', tps, conds, {'service': service, 'unregs': []})
+    # drive the pair lines and a few filler lines only
+    keep = {json.dumps(['line', 'host.py', ln]) for ln in (7, 12, 40)}
+    fill_places = [pl for pl in case['places'] if json.dumps(pl['place']) not in keep and pl['place'][2] != 99]
+    rng.shuffle(fill_places)
+    case['places'] = [pl for pl in case['places'] if json.dumps(pl['place']) in keep] + fill_places[:3] + \
+        [pl for pl in case['places'] if pl['place'][2] == 99]
+    case['scale'] = True
+    return case
+
+
 def gen_providers(rng):
     n_m = rng.choice([2, 2, 3, 3, 4])
     n_p = rng.choice([2, 2, 3])
@@ -1508,7 +1557,9 @@ def gen(rng, tier):
     yield from table_cases()
     while True:
         r = rng.random()
-        if r < 0.02:
+        if r < 0.012:
+            yield gen_scale(rng)
+        elif r < 0.03:
             yield {'kind': 'regodd', 'what': rng.choice(sorted(REGODD))}
         elif r < 0.10:
             yield gen_redeliver(rng)
@@ -1620,6 +1671,8 @@ def label(case, obs):
         return 'table/' + ('metric' if case['metrics'] else 'plain')
     if k == 'build':
         return 'build/' + ('none' if obs.get('trigger') is None else obs['trigger']['loc']['kind'])
+    if case.get('scale'):
+        return 'register/scale-%d-triggers' % (len(case['tps']) // 10 * 10)
     specs = [spec_trigger(tp) for tp in case['tps']]
     unint = any(s is None for s in specs)
     if any(not convertible(tp) for tp in case['tps']):
